@@ -155,3 +155,16 @@ Theorem C01_mapor_nk_causal (mg : Prop) (H : list (oprec (mop oop))) (s : cmap o
   reach mnew (mapply orswot_valops) (mmerge orswot_valops) adm_causal mg H s K -> s = mapor_spec_nk H K.
 Proof. exact (mapor_refine_nk_any adm_causal mg H s K). Qed.
 Print Assumptions C01_mapor_nk_causal.
+
+(** Map<K1, Map<K2, Orswot>> (nesting depth 2) when no key is ever removed at either level: the COMPLETE state is a function of the
+    knowledge under per-actor (hence causal) delivery, duplicates and merges (proofs/MapMapOrswotNK.v) *)
+From Crdt Require Import model.Orswot model.Map spec.System spec.OrswotSpec spec.OrswotSystem spec.MapSpec spec.MapSystem spec.MapOrswotSpec spec.MapMapOrswotSpec spec.MapMapOrswotNKSpec proofs.MapMapOrswotNK.
+Theorem C01_map2_nk_refine (H : list (oprec (mop (mop oop)))) :
+  m2hist_ok_nk H -> forall (s : cmap (cmap orswot)) (K : gset nat), m2reach_nk H s K -> s = map2_spec_nk H K.
+Proof. exact (map2_refine_nk H). Qed.
+Print Assumptions C01_map2_nk_refine.
+
+Theorem C01_map2_nk_converge (H : list (oprec (mop (mop oop)))) :
+  m2hist_ok_nk H -> forall (s1 s2 : cmap (cmap orswot)) (K : gset nat), m2reach_nk H s1 K -> m2reach_nk H s2 K -> s1 = s2.
+Proof. exact (map2_converge_nk H). Qed.
+Print Assumptions C01_map2_nk_converge.
